@@ -30,7 +30,7 @@ func init() {
 			line := hexOf(nil) + " " + v.String()
 			begin("penc " + line)
 			r := goEnc(v, nil, g.mode())
-			out := r.Class
+			out := "fail"
 			if r.Class == "ok" {
 				out = "ok | " + hexOf(r.Appended)
 			}
